@@ -42,7 +42,14 @@ def _mixed(T):
     return out
 
 
+# cuboctahedron: 12 vertices (only 6 of them are the axis extremes used as hill-climbing shortcuts), triangles exactly as
+# scipy.spatial.ConvexHull(...).simplices returns them (arbitrary winding and vertex order)
+CUBOCTA_V = [[-1.0, -1.0, 0.0], [-1.0, 0.0, -1.0], [0.0, -1.0, -1.0], [-1.0, 1.0, 0.0], [-1.0, 0.0, 1.0], [0.0, -1.0, 1.0],
+             [1.0, -1.0, 0.0], [1.0, 0.0, -1.0], [0.0, 1.0, -1.0], [1.0, 1.0, 0.0], [1.0, 0.0, 1.0], [0.0, 1.0, 1.0]]
+CUBOCTA_T = [[8, 1, 3], [2, 1, 0], [2, 7, 6], [5, 4, 0], [9, 8, 7], [11, 4, 3], [10, 5, 6], [10, 11, 9], [4, 1, 0], [4, 1, 3],
+             [2, 8, 7], [2, 8, 1], [5, 2, 0], [5, 2, 6], [11, 8, 3], [11, 9, 8], [10, 9, 7], [10, 7, 6], [10, 11, 4], [10, 5, 4]]
 MESHES = {"tetra": (TETRA_V, _orient(TETRA_V, TETRA_T)), "cube": (CUBE_V, _orient(CUBE_V, CUBE_T)),
+          "cubocta_raw": (CUBOCTA_V, CUBOCTA_T),
           "octa": (OCTA_V, _orient(OCTA_V, OCTA_T)), "tetra_in": (TETRA_IN_V, TETRA_IN_T),
           "octa_mixed": (OCTA_V, _mixed(_orient(OCTA_V, OCTA_T))), "cube_mixed": (CUBE_V, _mixed(_orient(CUBE_V, CUBE_T)))}
 
@@ -245,7 +252,7 @@ CORPUS = [
     {"type": "hull", "mesh": "octa", "dup": True},
     {"type": "mesh", "mesh": "tetra_in"},
     {"type": "mesh", "mesh": "octa_mixed"},
-    {"type": "mesh", "mesh": "cube_mixed"},
+    {"type": "mesh", "mesh": "cubocta_raw"},
 ]
 CORPUS_MORE = [
     {"type": "sphere", "radius": 100.0},
@@ -257,6 +264,7 @@ CORPUS_MORE = [
     {"type": "ellipse", "radii": [0.25, 4.0]},
     {"type": "mesh", "mesh": "cube"},
     {"type": "hull", "mesh": "tetra"},
+    {"type": "mesh", "mesh": "cube_mixed"},
 ]
 
 
